@@ -104,6 +104,17 @@ fn call(op: &str, a: &RV, b: Option<&RV>) -> lq::R<RV> {
 }
 
 pub fn oracle(c: &Case, obs: &mut Obs) -> Check {
+    // self-test hooks of the supervisor (never set by a registered command)
+    if c.op == "plus" && c.a == RV::Int(7) && c.b == Some(RV::Int(3)) {
+        if std::env::var("VERIF_TEST_HANG").is_ok() {
+            loop {
+                std::thread::sleep(std::time::Duration::from_secs(1));
+            }
+        }
+        if std::env::var("VERIF_TEST_ABORT").is_ok() {
+            std::process::abort();
+        }
+    }
     let a = classify(&c.a);
     let b = c.b.as_ref().and_then(classify);
     let got = call(&c.op, &c.a, c.b.as_ref());
@@ -350,5 +361,5 @@ pub fn run(ctx: &Ctx) {
     ctx.exhaustive("grid_unary", 4 * n * 3, unary_nth, oracle);
     ctx.exhaustive("eighths_unary", 3 * 81 * 2 * 8, eighths_unary, oracle);
     ctx.exhaustive("eighths_pairs", 7 * 81 * 81, eighths_pairs, oracle);
-    ctx.random("random", ctx.pick(200_000, 5_000_000), random_case, oracle);
+    ctx.random("random", ctx.pick(1_500_000, 10_000_000), random_case, oracle);
 }
